@@ -4,7 +4,7 @@ from evalutil import *
 
 ID = "C09"
 LEVEL = "proof"
-MODULES = ["H3Proofs.Props.C09", "H3Proofs.Props.C09Hex", "H3Proofs.Props.C09Dist", "H3Proofs.Props.C09Round"]
+MODULES = ["H3Proofs.Props.C09", "H3Proofs.Props.C09Hex", "H3Proofs.Props.C09Dist", "H3Proofs.Props.C09Round", "H3Proofs.Props.C09Valid"]
 THEOREMS = "auto"
 ASSUMPTIONS = ["hand-written model of cellToLocalIjk / localIjkToCell / gridDistance with the regenerated pentagon "
                "rotation tables, tied to the code by exact correspondence"]
@@ -15,6 +15,8 @@ NOT_PROVED = ["gridDistance = graph distance across base-cell boundaries and nea
               "cellToLocalIj / localIjToCell mutually inverse: PROVED inside a hexagon base cell at every resolution, both "
               "directions (C09Round: localIj_roundtrip, localIj_inverse); across base-cell boundaries and in pentagon base "
               "cells (unfolding tables) exercised by correspondence + evaluator"]
+ASSUMPTIONS.append("localIjToCell only ever returns valid cells of the origin's resolution: PROVED for every origin and every "
+                   "coordinate pair, all branches and unfolding tables (C09Valid.localIjToCell_valid)")
 EXPLANATION = ("inside a hexagon base cell, every resolution: cellToLocalIj and localIjToCell are mutually inverse (digit recovery by the "
                "rounding up-aperture steps, no overflow guard fires), gridDistance = lattice graph distance; validation/normalisation theorems on the model; exact correspondence of the five local-IJ functions; "
                "the evaluator compares gridDistance with breadth-first distance, checks symmetry, both round trips and "
